@@ -59,3 +59,46 @@ Proof. vm_compute. split; reflexivity. Qed.
 Print Assumptions C12_oracle_holds_on_model.
 Print Assumptions C12_answerable_requests_are_answered.
 Print Assumptions C12_process_is_dispatch.
+
+(* (4) interoperability: what the responder writes, the library's own decoder (the requester side, C01 / C09) is
+   given back.  For every answerable accepted request outside the processor's panic classes the first n bytes of
+   the output decode to: the unsuccessful-completion error 2 for Set Discovered Flag, a Success payload of the
+   n - 13 data bytes for Set / Force EID, Get UUID, Get Version, Get Message Type Support and Get Vendor Support —
+   and, for Get Endpoint ID, InvalidRequestDataLength: the responder writes the 3 data bytes DSP0236 defines, the
+   library's response-length table says 4, so the library rejects its own answer (known finding 101 of C01,
+   here in the process -> decode direction).  Interop.v has the per-command forms with the data bytes. *)
+Require Import Interop.
+
+Theorem C12_own_answers_go_through_the_own_decoder : forall ovf g c p buf,
+  wf_cfg g -> cinv g c -> bytes_ok p -> accepted_request p = true -> answerable (ctl_cmd p) = true ->
+  (64 <= length buf)%nat -> process_panic_class true g p = 0 -> valid_cfg g = true ->
+  exists c' n out, (13 <= n <= 44)%nat /\
+    step ovf c (OProcess p buf) =
+      (c', XProcess (inl ((MCtpControl, (11%nat, (length p - 12)%nat)), Some n)) out) /\
+    decode_packet (firstn n out) =
+      (if ctl_cmd p =? 2 then err MCtpControl (DControlMessage CEInvalidRequestDataLength)
+       else if (ctl_cmd p =? 1) && (nth 11 p 0 =? 3) then err MCtpControl (DControlMessage (CEUnsuccessfulCompletionCode 2))
+       else ok (MCtpControl, (12%nat, (n - 13)%nat))).
+Proof. exact own_answers_decoded. Qed.
+
+Theorem C12_get_endpoint_id_answer_is_rejected_by_the_own_decoder : forall ovf g c p buf,
+  wf_cfg g -> cinv g c -> bytes_ok p -> (64 <= length buf)%nat -> accepted_request p = true -> ctl_cmd p = 2 ->
+  exists out,
+    step ovf c (OProcess p buf) = (c, XProcess (inl ((MCtpControl, (11%nat, (length p - 12)%nat)), Some 16%nat)) out) /\
+    decode_packet (firstn 16 out) = err MCtpControl (DControlMessage CEInvalidRequestDataLength) /\
+    sub (firstn 16 out) 12 3 = [c_eid_resp c; 0; 0].
+Proof. exact get_eid_response_rejected. Qed.
+
+Theorem C12_set_endpoint_id_answer_decodes : forall ovf g c p buf,
+  wf_cfg g -> cinv g c -> bytes_ok p -> (64 <= length buf)%nat -> assigning p = true ->
+  exists out,
+    step ovf c (OProcess p buf) =
+      (set_eid_req (set_eid_resp c (nth 12 p 0)) (nth 12 p 0),
+       XProcess (inl ((MCtpControl, (11%nat, 2%nat)), Some 16%nat)) out) /\
+    decode_packet (firstn 16 out) = ok (MCtpControl, (12%nat, 3%nat)) /\
+    sub (firstn 16 out) 12 3 = [0; nth 12 p 0; 0].
+Proof. exact set_eid_response_decodes. Qed.
+
+Print Assumptions C12_own_answers_go_through_the_own_decoder.
+Print Assumptions C12_get_endpoint_id_answer_is_rejected_by_the_own_decoder.
+Print Assumptions C12_set_endpoint_id_answer_decodes.
